@@ -15,7 +15,7 @@ Structural clauses (feature `fuel`, configuration MAX):
  G5 budget arithmetic is exact: no value-changing integer cast and no overflow-capable arithmetic on the budget in
     fuel.rs (a budget of u64::MAX must not wrap).
 """
-from .. import cfg, flow, errflow, query
+from .. import cfg, flow, errflow, query, inline
 from ..facts import op_place
 
 EVAL_IMPL = "minijinja::vm::Executor::eval_impl"
@@ -53,6 +53,63 @@ def dispatch_switch(prog, f):
     return best
 
 
+
+G7_RULE = "C13.G7.an-error-of-template-code-is-not-replaced"
+ERROR_T = "minijinja::error::Error"
+
+
+def check_errors_not_replaced(ctx, prog):
+    """G7 (after seed C13-7): below the threshold the render fails with the out-of-fuel error - "never a different
+    error".  The error is raised deep inside whatever template code was running (a macro reached through `obj.m()`, a
+    filter's callback); every engine function on the way up hands it on.  For each call in the engine whose callee
+    takes the `State` (it can run template code) and returns `Result<_, Error>`: the Err is returned / propagated, or
+    it is replaced only on the side of a test of its `kind()` against a constant kind (a missing template, an unknown
+    method - never a blanket `if let Ok(..)`)."""
+    n = 0
+    for f in sorted(prog.fns.values(), key=lambda x: x.path):
+        if f.crate != "minijinja":
+            continue
+        for c in f.calls():
+            if c.dest is None or "p" in c.dest:
+                continue
+            dt = f.locals[c.dest["l"]].get("s", "")
+            if not (dt.startswith("core::result::Result<") and dt.rstrip(">").endswith(ERROR_T)):
+                continue
+            takes_state = False
+            for a in c.args:
+                p = op_place(a)
+                if p is not None and "vm::state::State" in f.locals[p["l"]].get("s", ""):
+                    takes_state = True
+            if not takes_state:
+                continue
+            n += 1
+            ds = errflow.disposition(f, c)
+            bad = [d for d in ds if d[0] in ("swallowed", "dropped", "matched-not-propagated")]
+            if not bad:
+                continue
+            # replaced only under a test of the error's kind
+            kind_tested = True
+            for d in bad:
+                eb = d[2]
+                tested = False
+                for (sb, taken) in flow.guards(f, eb) + [(b, None) for b in cfg.reach_from(f, eb) if f.term(b)["k"] == "switch"]:
+                    cd = flow.cond_of(f, sb)
+                    ee = flow.enum_eq(f, cd) if cd.kind == "call" else None
+                    if ee is not None and ee[0] not in (None, "OutOfFuel"):
+                        for o in ee[1]:
+                            # ... of *this* call's error
+                            if o.kind == "call" and o.call.name.endswith("Error::kind") and o.call.args and any(
+                                    o2.kind == "call" and o2.call.bb == c.bb for o2 in flow.origins(f, o.call.args[0])):
+                                tested = True
+                if not tested:
+                    kind_tested = False
+            ctx.ob(G7_RULE, "%s|%s" % (f.path.split("::")[-1] if f.kind != "closure" else f.path, c.name.split("::")[-1]), kind_tested,
+                   "%s discards or replaces the error of %s, a call that can run template code, without looking at its kind (%s): "
+                   "an out-of-fuel error raised inside surfaces as a different error, or not at all"
+                   % (f.path.split("::")[-1], c.name, "; ".join(sorted({d[0] for d in bad}))), f.where(c.bb))
+    ctx.floor("C13.G7 calls that can run template code and return an engine error", n, 80)
+
+
 def run(ctx):
     ctx.explain("C13: who-may-construct / who-may-read rules for the fuel tracker, a must-pass-through rule placing "
                 "the charge between instruction fetch and dispatch on every loop iteration, purity of "
@@ -62,9 +119,20 @@ def run(ctx):
                 "computed.")
     ctx.assume("user callbacks (filters, functions, objects) cannot reach the private fuel tracker (type privacy)")
     prog = ctx.prog
-    ev = prog.fn(EVAL_IMPL)
-    track = prog.fn(TRACK)
+    # the interpreter loop and the tracker's charge are read through private helpers a maintainer may have split them
+    # into (`state.track_fuel(instr)`, `self.consume(cost)`); the functions the rules look for stay calls
+    ev = inline.view(prog, prog.fn(EVAL_IMPL), keep=lambda t: not (t.startswith("minijinja::vm::state::State::") or t.startswith("minijinja::vm::fuel::"))
+                     or t in (TRACK, FFI, NEW, STATE_NEW))
+    track = inline.view(prog, prog.fn(TRACK), keep=(FFI, NEW))
     ffi = prog.fn(FFI)
+    looked_through = {EVAL_IMPL: set(inline.inlined_helpers(ev)), TRACK: set(inline.inlined_helpers(track))}
+
+    def private_helper_of(path, owners):
+        """a crate-private function all of whose callers are among `owners` and whose body those owners' views contain"""
+        g = prog.fns.get(path)
+        sites = prog.callers().get(path, [])
+        return g is not None and not g.is_pub and bool(sites) and all(
+            c.fn.path in owners and path in looked_through.get(c.fn.path, ()) for c in sites)
     refs = query.fn_refs(prog)
 
     # G1
@@ -162,7 +230,8 @@ def run(ctx):
     wr = [(f, bb, p) for f, bb, w, p in query.field_accessors(prog, TRACKER, "remaining") if w]
     ctx.floor("C13.G3 writes of FuelTracker.remaining", len(wr), 1)
     for f, bb, p in wr:
-        ctx.ob("C13.G3.remaining-written-only-by-track", f.path, f.path in (TRACK, NEW), "", f.where(bb))
+        ctx.ob("C13.G3.remaining-written-only-by-track", f.path, f.path in (TRACK, NEW) or private_helper_of(f.path, (TRACK,)),
+               "", f.where(bb))
     ok = False
     detail = ""
     for d in flow.stores(track):
@@ -190,7 +259,7 @@ def run(ctx):
     acc = query.field_accessors(prog, STATE, "fuel_tracker")
     ctx.floor("C13.G4 accesses of State.fuel_tracker", len(acc), 2)
     for f, bb, w, p in acc:
-        ctx.ob("C13.G4.tracker-readers-are-reviewed", f.path, f.path in TRACKER_READERS,
+        ctx.ob("C13.G4.tracker-readers-are-reviewed", f.path, f.path in TRACKER_READERS or private_helper_of(f.path, (EVAL_IMPL,)),
                "State.fuel_tracker is consulted outside the charge site / fuel_levels: fuel may influence output",
                f.where(bb))
     for fld in ("remaining", "initial"):
@@ -258,3 +327,4 @@ def run(ctx):
     ctx.count("dispatch arms", len(ev.term(disp)["arms"]))
     ctx.sample({"dispatch": ev.where(disp), "track_sites": [str(c.loc) for c in tcalls],
                 "State::new callers": sorted({f.path for f, _, _ in srefs})})
+    check_errors_not_replaced(ctx, prog)
